@@ -346,11 +346,38 @@ func c09Hidden(hello []byte) []byte {
 	return append(append(append([]byte{}, ch.random...), ch.sessionId...), ks...)
 }
 
-// c09BreakHello damages a genuine hello so that it no longer parses; the record length stays honest.
+// c09Exts walks a ClientHello record and returns, per extension type, the offset of its header and its data length.
+func c09Exts(h []byte) map[int][2]int {
+	out := map[int][2]int{}
+	p := 5 + 4 + 2 + 32
+	if p >= len(h) {
+		return out
+	}
+	p += 1 + int(h[p])
+	if p+2 > len(h) {
+		return out
+	}
+	p += 2 + (int(h[p])<<8 | int(h[p+1]))
+	if p >= len(h) {
+		return out
+	}
+	p += 1 + int(h[p])
+	p += 2
+	for p+4 <= len(h) {
+		typ, l := int(h[p])<<8|int(h[p+1]), int(h[p+2])<<8|int(h[p+3])
+		out[typ] = [2]int{p, l}
+		p += 4 + l
+	}
+	return out
+}
+
+// c09BreakHello damages a genuine hello so that it no longer parses; the record length stays honest.  Callers pass
+// the hello of a user that is NOT authorised, so that even a damage the parser tolerates can never be served.
 func c09BreakHello(h []byte, rng *kit.Rng) ([]byte, string) {
 	m := append([]byte{}, h...)
 	fix := func() { m[3], m[4] = byte((len(m)-5)>>8), byte(len(m)-5) }
-	switch rng.Intn(9) {
+	exts := c09Exts(h)
+	switch rng.Intn(10) {
 	case 0:
 		m[5] = 2
 		return m, "handshake type 2"
@@ -364,9 +391,8 @@ func c09BreakHello(h []byte, rng *kit.Rng) ([]byte, string) {
 		m[43] = 33
 		return m, "session id length 33"
 	case 4:
-		i := bytes.Index(m, []byte{0x00, 0x33, 0x00})
-		if i > 0 {
-			m[i] = 0xff
+		if e, ok := exts[0x33]; ok {
+			m[e[0]] = 0xff
 		}
 		return m, "no key_share extension"
 	case 5:
@@ -378,11 +404,22 @@ func c09BreakHello(h []byte, rng *kit.Rng) ([]byte, string) {
 		fix()
 		return m, "record lengthened, inner lengths untouched"
 	case 7:
-		i := bytes.Index(m, []byte{0x00, 0x1d, 0x00, 0x20})
-		if i > 0 {
-			m[i+3] = 0x21
+		if e, ok := exts[0x33]; ok {
+			p, end := e[0]+6, e[0]+4+e[1]
+			for p+4 <= end {
+				if m[p] == 0x00 && m[p+1] == 0x1d {
+					m[p+3]++
+					break
+				}
+				p += 4 + (int(m[p+2])<<8 | int(m[p+3]))
+			}
 		}
 		return m, "x25519 key exchange length 33"
+	case 8:
+		if e, ok := exts[0x33]; ok {
+			m[e[0]+4], m[e[0]+5] = 0xff, 0xff
+		}
+		return m, "key_share list length 65535"
 	default:
 		m = m[:5+4+2+32+1+rng.Intn(30)]
 		fix()
@@ -467,7 +504,7 @@ func c09Concretise(b *c09Behaviour, rng *kit.Rng, variant int) (*c09Scenario, er
 					hdr = []byte{0x16, byte(rng.Intn(256)), byte(rng.Intn(256))}
 				}
 			case "badhello":
-				h, how := c09BreakHello(c09HelloOf("ok", rng), rng)
+				h, how := c09BreakHello(c09HelloOf("uid", rng), rng)
 				sc.Label = how
 				hdr, body = h[:3], h[5:]
 			default:
